@@ -46,7 +46,9 @@ func init() {
 		level: "exploration",
 		rule: "seeded (min,max,sigfigs) shapes (min arbitrary / power of two up to 2^12, max on and around subBucketCount*2^k boundaries, powers of two, up to 2^40, sigfigs 1..5) x multisets that over-sample min, max, " +
 			"powers of two +-1, bucket and sub-bucket boundaries +-1 and heavy duplicates x quantiles {25,50,90,99,99.9,100,random,tiny}; oracle = exact order statistic of a sorted copy. " +
-			"distinct_nontrivial = distinct (sigfigs, bit-length of min, bit-length of max, max-is-power-of-two, size class)",
+			"Every third case is a session: 4-44 steps of RecordValue / RecordValues / RecordCorrectedValue (interval inside the range; the documented back-filled values join the model) / Reset / record above the range / query, " +
+			"continuing on Import(Export(h)) and on New(shape).Merge(h) copies, judged by the same oracle after every query step. " +
+			"distinct_nontrivial = distinct (sigfigs, bit-length of min, bit-length of max, max-is-power-of-two, size class) resp. (session, shape classes, set of step kinds)",
 		assumptions:   append([]string{"rank of a quantile is computed with the documented rounding round(q/100*N); quantiles of rank 0 are not judged"}, commonAssumptions...),
 		floorEvals:    500,
 		floorDistinct: 20,
